@@ -35,7 +35,19 @@ def pools():
     POLY = [((0, 0), (2, 0), (2, 2), (0, 2)), ((1, 1), (4, 1), (4, 3), (1, 3)), ((0, 0), (3, 0), (1, 1), (0, 3)), ((-1, 0), (1, -1), (2, 1), (0, 2)),
             ((0, 0), (4, 0), (4, 1), (0, 1)), ((1, 0), (3, 1), (2, 3), (0, 2)), ((2, 2), (5, 2), (5, 5), (2, 5)), ((0, 1), (1, 0), (2, 1), (1, 2)),
             ((-2, -2), (0, -2), (0, 0), (-2, 0)), ((1, -1), (3, 0), (2, 2), (0, 1)), ((0, 0), (1, 0), (1, 4), (0, 4))]
+    TS = [(0, 1), (1, 1), (-1, 1), (2, 1), (1, 2), (3, 1), (-2, 1), (1, 0), (5, 2), (-1, 3), (4, 1)]       # parameters x = s/t on a carrier
+    CP2 = [(1 * t + 2 * s, 1 * t + 1 * s, t) for s, t in TS]                    # collinear: (1,1) + x (2,1), one of them at infinity
+    CP3 = [(1 * t + s, 2 * t - s, 3 * t + 2 * s, t) for s, t in TS]             # collinear in space: (1,2,3) + x (1,-1,2)
+    CL2 = [(t, s, -(t + 2 * s)) for s, t in TS]                                 # concurrent in (1,2)
+    CE3 = [(t, -t, s, -s) for s, t in TS]                                       # coaxial: the planes through (0,0,1) + x (1,1,0)
     return {
+        "cpoint2": ([g.Point(np.array(p)) for p in CP2], lambda xs: g.PointCollection(np.array([x.array for x in xs]))),
+        "cpoint3": ([g.Point(np.array(p)) for p in CP3], lambda xs: g.PointCollection(np.array([x.array for x in xs]))),
+        "cline2": ([g.Line(np.array(l)) for l in CL2], lambda xs: g.LineCollection(np.array([x.array for x in xs]))),
+        "cplane3": ([g.Plane(np.array(e)) for e in CE3], lambda xs: g.PlaneCollection(np.array([x.array for x in xs]))),
+        # concurrent and coplanar lines of space: through (1,2,3) in the plane spanned by (1,0,1) and (0,1,1)
+        "cline3": ([g.Line(g.Point(1, 2, 3), g.Point(np.array([1 * 1 + t * 1, 2 + s, 3 + t + s, 1]))) for s, t in TS],
+                   lambda xs: g.LineCollection(np.array([x.array for x in xs]))),
         "point2": ([g.Point(np.array(p)) for p in P2], lambda xs: g.PointCollection(np.array([x.array for x in xs]))),
         "line2": ([g.Line(np.array(l)) for l in L2], lambda xs: g.LineCollection(np.array([x.array for x in xs]))),
         "point3": ([g.Point(np.array(p)) for p in P3], lambda xs: g.PointCollection(np.array([x.array for x in xs]))),
@@ -92,6 +104,14 @@ def optable():
     op("angle_ll2", ("line2", "line2"), lambda a, b: g.angle(a, b))
     op("angle_ee3", ("plane3", "plane3"), lambda a, b: g.angle(a, b))
     op("crossratio_from2", ("point2", "point2", "point2", "point2", "point2"), lambda a, b, c, d, e: g.crossratio(a, b, c, d, e))
+    op("crossratio_pppp2", ("cpoint2",) * 4, lambda a, b, c, d: g.crossratio(a, b, c, d))
+    op("crossratio_pppp3", ("cpoint3",) * 4, lambda a, b, c, d: g.crossratio(a, b, c, d))
+    op("crossratio_llll2", ("cline2",) * 4, lambda a, b, c, d: g.crossratio(a, b, c, d))
+    op("crossratio_llll3", ("cline3",) * 4, lambda a, b, c, d: g.crossratio(a, b, c, d))
+    op("crossratio_eeee3", ("cplane3",) * 4, lambda a, b, c, d: g.crossratio(a, b, c, d))
+    op("harmonic_set_ppp2", ("cpoint2",) * 3, lambda a, b, c: g.harmonic_set(a, b, c))
+    op("harmonic_set_ppp3", ("cpoint3",) * 3, lambda a, b, c: g.harmonic_set(a, b, c))
+    op("is_concurrent_lll2", ("line2",) * 3, lambda a, b, c: g.is_concurrent(a, b, c))
     op("is_collinear_ppp2", ("point2", "point2", "point2"), lambda a, b, c: g.is_collinear(a, b, c))
     op("is_cocircular2", ("point2", "point2", "point2", "point2"), lambda a, b, c, d: g.is_cocircular(a, b, c, d))
     op("is_perpendicular_ll2", ("line2", "line2"), lambda a, b: g.is_perpendicular(a, b))
@@ -172,7 +192,7 @@ def compare_pos(cres, sres, pos, out_shape, opname=""):
 
 
 SCALES = [1, 2000, 0.001, -3, 1500, -0.5]
-SCALABLE = ("point2", "line2", "point3", "plane3", "line3", "quadric2", "trafo2")
+SCALABLE = ("point2", "line2", "point3", "plane3", "line3", "quadric2", "trafo2", "cpoint2", "cpoint3", "cline2", "cplane3", "cline3")
 
 
 def _rescaled(x, f):
@@ -276,7 +296,7 @@ def replay_indexing(_):
         if not cond:
             out.append(dict(site=site, stratum="indexing", case={}, expected=exp, observed=obs))
 
-    elem = {"point2": g.Point, "line2": g.Line, "point3": g.Point, "plane3": g.Plane, "line3": g.Line, "quadric2": g.Quadric,
+    elem = {"cpoint2": g.Point, "cpoint3": g.Point, "cline2": g.Line, "cplane3": g.Plane, "cline3": g.Line, "point2": g.Point, "line2": g.Line, "point3": g.Point, "plane3": g.Plane, "line3": g.Line, "quadric2": g.Quadric,
             "trafo2": g.Transformation, "seg2": g.Segment, "poly2": g.Polygon}
     for kind, (pool, mk) in PL.items():
         xs = pool[:6]
